@@ -80,7 +80,10 @@ func (ts *taskSource) each(yield func(t c04Task) bool) {
 	if !ts.deep {
 		hugeEvery = 4
 	}
-	for vi := 0; vi < len(ts.vecs); vi += stride {
+	// every stride-th vector gets the full treatment; every other vector the negative counts and lengths only (the
+	// classic makeslice / index panics), so that no layout goes without them
+	for vi := 0; vi < len(ts.vecs); vi++ {
+		light := vi%stride != 0
 		vec := ts.vecs[vi]
 		base := flattenChunks(vec.Chunks)
 		_, fields, ok, _ := matchChunks(vec.Chunks, base, 0)
@@ -113,13 +116,19 @@ func (ts *taskSource) each(yield func(t c04Task) bool) {
 			}
 			return true
 		}
-		if !frameTasks(label+" unchanged", base, false) {
+		if !light && !frameTasks(label+" unchanged", base, false) {
 			return
 		}
 		for fi, f := range fields {
 			repl := ts.mut.Repl[f.Role]
+			if light && !strings.HasPrefix(f.Role, "count") && !strings.HasPrefix(f.Role, "len") {
+				continue
+			}
 			for ri, r := range repl {
 				if len(r) != f.Len {
+					continue
+				}
+				if light && !(r[0] == 0xff && r[len(r)-1] >= 0xfe) {
 					continue
 				}
 				// lengths of 2^31-1 make the decoders allocate and zero 2 GiB before they notice the bytes are missing: a
@@ -133,9 +142,12 @@ func (ts *taskSource) each(yield func(t c04Task) bool) {
 				}
 				lbl := fmt.Sprintf("%s field %d (%s %s) := % x", label, fi, f.Role, f.Name, intsToBytes(r))
 				// once with the declared body length left as is, once made consistent
-				if !frameTasks(lbl, d, false) || (f.Name != "frame.length" && ri%3 == 0 && !frameTasks(lbl+" (length fixed)", d, true)) {
+				if !frameTasks(lbl, d, false) || (!light && f.Name != "frame.length" && ri%3 == 0 && !frameTasks(lbl+" (length fixed)", d, true)) {
 					return
 				}
+			}
+			if light {
+				continue
 			}
 			if f.Role == "code" || f.Role == "flags" {
 				for bit := 0; bit < 8*f.Len; bit++ {
@@ -161,7 +173,7 @@ func (ts *taskSource) each(yield func(t c04Task) bool) {
 				return
 			}
 		}
-		if vi%(stride*5) == 0 {
+		if !light && vi%(stride*5) == 0 {
 			for off := 0; off < len(base) && off < 300; off++ {
 				if !frameTasks(fmt.Sprintf("%s truncated at offset %d", label, off), base[:off], off > hl && off%2 == 0) {
 					return
@@ -627,7 +639,7 @@ func c04Worker(args []string) int {
 	ts.seed, ts.deep = *seedv, *deep
 	// collect eagerly: inputs declaring a 2 GiB [bytes] make the decoders allocate that much before they hit EOF; the
 	// address-space limit must only be reached by allocations no 1 MiB input can justify, not by uncollected garbage
-	debug.SetGCPercent(50)
+	debug.SetGCPercent(300) // the live heap is the (large, pointer-rich) input set: collecting it often costs more than the decoders do
 	runtime.GC()
 	metrics.Read(heapSample)
 	heapBaseline = heapSample[0].Value.Uint64()
@@ -721,7 +733,7 @@ func c04Parent(args []string) int {
 	mutPath := fs.String("mut", "", "mutation table from WireMutate.tla (json)")
 	seedv := fs.Int64("seed", 1, "seed")
 	deep := fs.Bool("deep", false, "thorough tier")
-	workers := fs.Int("workers", 8, "worker processes")
+	workers := fs.Int("workers", 14, "worker processes")
 	memKB := fs.Int("mem-kb", 0, "address-space limit per worker in KB (0 = none; the Go runtime does not reuse freed 2 GiB spans well enough for a tight limit)")
 	hang := fs.Duration("hang", 60*time.Second, "a worker that makes no progress for this long is killed")
 	_ = fs.Parse(args)
@@ -730,6 +742,10 @@ func c04Parent(args []string) int {
 	var mu sync.Mutex
 	entries := map[string]int64{}
 	var wg sync.WaitGroup
+	// once two crashes / hangs have been confirmed the verdict is settled: the remaining workers are stopped instead of
+	// paying a stall timeout plus two confirmations for every further input that hits the same defect
+	stop := make(chan struct{})
+	confirmedFatal := 0
 	for w := 0; w < *workers; w++ {
 		wg.Add(1)
 		go func(id int) {
@@ -747,7 +763,7 @@ func c04Parent(args []string) int {
 				if *memKB > 0 {
 					limit = fmt.Sprintf("ulimit -v %d; ", *memKB)
 				}
-				wargs := fmt.Sprintf("%sexec %q c04-worker -vec %q -cases %q -mut %q -seed %d -id %d -n %d -resume %d -progress %q", limit, self, *vecPath, *casePath, *mutPath, *seedv, id, *workers, resume, pf.Name())
+				wargs := fmt.Sprintf("%sGOMAXPROCS=2 exec %q c04-worker -vec %q -cases %q -mut %q -seed %d -id %d -n %d -resume %d -progress %q", limit, self, *vecPath, *casePath, *mutPath, *seedv, id, *workers, resume, pf.Name())
 				if *deep {
 					wargs += " -deep"
 				}
@@ -774,6 +790,10 @@ func c04Parent(args []string) int {
 					select {
 					case werr = <-done:
 						break wait
+					case <-stop:
+						_ = cmd.Process.Kill()
+						<-done
+						return
 					case <-time.After(2 * time.Second):
 						if p := readProgress(); p != last {
 							last, lastChange = p, time.Now()
@@ -836,7 +856,7 @@ func c04Parent(args []string) int {
 								first = clipStr(oerr.String(), 200)
 							}
 						}
-					case <-time.After(4 * *hang):
+					case <-time.After(*hang):
 						_ = ocmd.Process.Kill()
 						<-odone
 						confirmed++
@@ -846,10 +866,20 @@ func c04Parent(args []string) int {
 				if confirmed == 2 {
 					rep.violate("c04|"+kind+"|"+panicClass(first), fmt.Sprintf("task %d: worker %s: %s; reproduced twice in isolation (replay: harness c04-worker ... -only %d)", at, kind, first, at),
 						map[string]interface{}{"check": "c04", "task": at, "stderr": clipStr(stderr.String(), 1500)})
+					confirmedFatal++
+					if confirmedFatal == 2 {
+						rep.Notes = append(rep.Notes, "two crashes / hangs confirmed: remaining inputs not explored")
+						close(stop)
+					}
 				} else {
 					rep.Notes = append(rep.Notes, fmt.Sprintf("worker %s at task %d (%s) did not reproduce in isolation (%d/2): not a verdict", kind, at, first, confirmed))
 				}
 				mu.Unlock()
+				select {
+				case <-stop:
+					return
+				default:
+				}
 				resume = int64(at) + 1
 			}
 		}(w)
